@@ -347,13 +347,13 @@ def _run_property(pid, tier, seed, args):
     for u in undecided:
         print('UNDECIDED-PART property=%s reason=%s' % (pid, u.replace('\n', ' | ')[:600]))
     if violations:
+        shared = [v['witness'] for v in violations if v.get('witness')]
         for o in violations:
+            if not (o.get('concrete_playback') or o.get('witness')) and shared:
+                # another failed obligation of this run carries a concrete failing input for the same change
+                o['witness'] = shared[0]
             path = write_replay(pid, o, vmetas)
             has_input = bool(o.get('concrete_playback') or o.get('witness'))
-            if not has_input and any(v.get('witness') for v in violations):
-                # another failed obligation of this run carries a concrete failing input for the same change
-                o['witness'] = [v['witness'] for v in violations if v.get('witness')][0]
-                has_input = True
             print('VIOLATION property=%s replay=%s%s' % (pid, path, '' if has_input else ' no-failing-input-found'))
         return 1
     print('PASS property=%s tier=%s obligations=%d discharged=%d bounded_standins=%d wall=%.1fs'
